@@ -1,6 +1,25 @@
 (* C11 — property theorems only.  Each is closed by [exact] of a lemma from proofs/C11_Proofs.v (finite-domain
    sweeps over the COMPLETE product of the 13 documented options, computed by the kernel VM and lifted with
-   forallb_forall) or from proofs/C01_Proofs.v (the balance laws, for every configuration). *)
+   forallb_forall) or from proofs/C01_Proofs.v (the balance laws, for every configuration).
+
+   WHAT THESE THEOREMS DO AND DO NOT ESTABLISH.
+   * Closed world.  The failure modes of compute_emissions (one not-implemented branch, two internal errors of the
+     code as found, the missing life-cycle datum) were ENUMERATED BY READING THE CODE and written into
+     [outcome_of]; [Internal] is produced only under [negb (fixed_* t)].  C11_never_internal_error therefore says
+     "the enumerated failure modes are all switched off in the repaired tree", exhaustively over the product — it does
+     not discover failure modes.  Only the correspondence (every run: outcome class and key sets of the real call vs
+     [outcome_of], quick = pairwise-covering + random + shapes + histories, thorough = all 41 472) and the outcome oracle
+     validate the enumeration.  The model has no trajectory-shape dimension: a failure that depends on the shape
+     (seeded change C11-2: empty accounting window + MEEM) lives outside it and is caught by the shape flights only.
+   * Deviation in [names_configured]: its fourth disjunct accepts [Refused "lifecycle"] — a fuel without the
+     life-cycle datum, i.e. a missing input, not an unsupported method; it is accepted as a refusal by name because it
+     is a data precondition outside the option product (design.d/C11.md).  Its first two disjuncts (NOx / PMvol methods
+     without a handler) are dead today: every member is handled; they are kept so that a dispatcher losing a branch
+     keeps the statement meaningful once the tables change.
+   * C11_balanced_configs_balance is C01's total and total-fuel laws restated for every configuration (they hold
+     whatever the outcome; no premise about the outcome is needed or used).
+   STATED GAP: "balanced" includes "finite" in the property text; finiteness is a binary64 notion, not a theorem — it is
+   checked on the implementation's outputs by the oracle. *)
 From Coq Require Import List Bool String ZArith Reals.
 From AV Require Import lib.Num model.C11_Model model.C01_Model proofs.C11_Proofs proofs.C01_Lists proofs.C01_Proofs.
 Import ListNotations.
@@ -50,15 +69,14 @@ Theorem C11_enabled_species_table_reading : forall c s, enabled_gen enabled_tabl
 Proof. exact enabled_table_correct. Qed.
 Print Assumptions C11_enabled_species_table_reading.
 
-(* a configuration that runs yields a balanced inventory: C01's laws hold for EVERY configuration, so in
-   particular for every one whose outcome is Balanced (whatever the numeric inputs) *)
-Theorem C11_balanced_configs_balance : forall (x : @inputs RNum) e tr lt ap gs lc,
-  outcome_of repaired e (i_cfg x) = Balanced tr lt ap gs lc ->
+(* C01's laws hold for EVERY configuration and all numeric inputs — in particular for every configuration whose
+   outcome is Balanced.  (A corollary of C01, restated here; it has no premise about the outcome.) *)
+Theorem C11_balanced_configs_balance : forall (x : @inputs RNum),
   (forall s, I_total x s =
      (Rsum (gl (I_traj_em x s)) + Rtm_sum (gtm (I_lto_em x s)) + gr (I_apu_em x s) + gr (I_gse_em x s)
       + match s with CO2 => I_lifecycle x | _ => 0 end)%R)
   /\ I_total_fuel x = (I_traj_fuel x + I_lto_fuel x + I_apu_fuel x + I_gse_fuel x)%R.
-Proof. intros x e tr lt ap gs lc _. split; [exact (total_eq_parts x)|exact (total_fuel_eq_components x)]. Qed.
+Proof. intros x. split; [exact (total_eq_parts x)|exact (total_fuel_eq_components x)]. Qed.
 Print Assumptions C11_balanced_configs_balance.
 
 (* ---- the code as found: two classes of internal error, and no other ---- *)
